@@ -3,18 +3,28 @@
 Four monitors sit on the code objects of ``save_xye``, ``load_xye``, ``_deduce_coord`` and
 ``_generate_xye_header`` (sys.monitoring), so they judge whatever drives these functions:
 
-* FILE monitor (return of ``save_xye`` for representable input): the text that reached the
-  target (bytes on disk for paths / handles, ``getvalue()`` for StringIO) is decoded by an
-  independent parser.  Every non-comment, non-blank line must hold exactly three numbers;
+* FILE monitor (return of ``save_xye`` for representable input): the text this call put into the
+  target -- the whole file for a path, for a file object exactly the text between the position it
+  had when the call began and the position it has afterwards (bytes on disk for handles,
+  ``getvalue()`` for StringIO); what stood in front of that position must still stand there -- is
+  decoded by an independent parser.  Every non-comment, non-blank line must hold exactly three numbers;
   there must be exactly as many such lines as rows supplied, whatever the header contains;
   ``float(token)`` of columns 1 / 2 must equal the supplied coordinate / value bit for bit
   and column 3 must be sqrt(variance) to 2 ulp.
-* ROUND-TRIP monitor (return of ``load_xye`` on a target a monitored save wrote): row count,
-  coordinate and values bitwise (raw bytes, so -0.0 and denormals count), variances within
-  4 ulp, dims / coord name / units as requested.
+* ROUND-TRIP monitor (return of ``load_xye`` on a target monitored saves wrote): a path is read
+  from its start, a file object ("Name or file handle of the input file") from the position it has
+  when the call begins, both to the end.  Expected are the rows of the tables saved into that range
+  (all rows of a table that starts in it, the remaining rows of one the caller has partly consumed,
+  one after the other if several tables follow), provided the independent parser finds that whatever
+  else the caller put into the range is comment or blank lines: row count, coordinate and values
+  bitwise (raw bytes, so -0.0 and denormals count), variances within 4 ulp, dims / coord name /
+  units as requested.
 * REFUSAL monitor (return of ``save_xye`` for input the format cannot represent): must raise
-  one of the module's refusal types and leave the target absent or empty.
-* COORD-CHOICE monitor (return of ``_deduce_coord``) against the documented rule.
+  one of the module's refusal types and leave the target as it was when the call began (a fresh
+  path absent or empty, a stream that already holds tables unchanged).
+* COORD-CHOICE monitor (return of ``_deduce_coord``) against the documented rule ("only one
+  coordinate -> that one; several -> the one named like da.dim; else an error"), which speaks of the
+  coordinates of ``da`` whatever state they are in (aligned or not, per-row or scalar).
 
 Nothing here calls scippneutron to obtain an expected value: expectations are the supplied
 arrays themselves (bytes) and a long-double square root.
@@ -42,10 +52,18 @@ RULE = (
     'ordinary}, 1..1e4 rows, 1..5 coordinates with/without coord=, header class (generated with '
     'benign or hostile coordinate names, empty, ASCII text with #, LF, CRLF, bare CR, data-row '
     'lookalikes, other ASCII control characters), target kind (str path, pathlib path, StringIO, '
-    'StringIO(newline=None), text handle, CRLF text handle); or one save_xye call on an input class '
-    'the format cannot represent.  distinct = distinct (accept/refuse class, target, header class, '
-    'n coords, coord= given, row band, value class); trivial = ordinary values, generated header, '
-    'one benign coordinate'
+    'StringIO(newline=None), text handle, CRLF text handle), coordinate state (built from variables; '
+    'alignment flags cleared at random; integer slice / length-1 range + squeeze of 2-d data in either '
+    'memory layout, 1-d and 2-d coordinates, outer coordinates left behind as unaligned scalars; plain '
+    'scalar coordinates; dimension-coordinate present or not); or one save_xye call on an input class '
+    'the format cannot represent (same coordinate states); or one stream case: a StringIO or real text '
+    'handle (w+, w+ CRLF, a+, w then a second read handle) receives 2..5 things in a row (tables, refused '
+    'saves, caller-written title / comment / number lines), tables are read back from their start offset '
+    '(seek, or reading lines up to it, or reading on into header / rows) right after they were written and '
+    'at the end, from offset 0 and through the path.  distinct = distinct (accept/refuse class, target, '
+    'header class, n coords, coord= given, row band, value class, coordinate-state route; stream: target, '
+    'header class, first / behind other content); trivial = ordinary values, generated header, one benign '
+    'coordinate built from variables'
 )
 ASSUMPTIONS = [
     'variances are finite and >= 0 (a standard deviation is stored); values/coordinates are any finite float64',
@@ -53,6 +71,12 @@ ASSUMPTIONS = [
     'numpy.loadtxt do; an io.StringIO() target is read with its own convention (LF only)',
     'refusal types accepted: scipp.VariancesError, scipp.DimensionError, scipp.CoordError, ValueError '
     '(the types raised by the module and pinned by its tests; the docstring only says "raise an error")',
+    'a file object is used as file handles are: save_xye writes at its current position (append-mode handles at '
+    'the end) and load_xye reads from its current position to the end; text the caller wrote into the range '
+    'that is read must be comment or blank lines, otherwise the read is executed and counted, not judged',
+    'the documented coordinate choice (one coordinate -> it; several -> the one named like da.dim; else error) '
+    'counts every coordinate of the data array alike: aligned or unaligned, per-row or scalar. If the rule '
+    'selects a coordinate without a value per row (a scalar), the save is executed and counted, not judged',
     'zero-dimensional input counts as "not one-dimensional" and must be refused (docstring: "The input must be '
     '1-dimensional"; the code raises DimensionError for ndim != 1)',
     'headers and generated headers outside ASCII (unit strings such as angstrom, us) are outside the '
@@ -74,7 +98,7 @@ VAR_ULP = 4      # property: "within a few units in the last place"
 FILE_E_ULP = 2   # column 3 against the long-double square root
 DUP_CAP = 3      # witnesses kept per (kind, mechanism) and shard; the rest is counted
 MECHANISM_KEYS = ('header_has_bare_cr', 'reader_newlines', 'file_header_escaped', 'more_rows_loaded',
-                  'table_tail_intact', 'input_class', 'column', 'exc_type', 'single_row')
+                  'table_tail_intact', 'input_class', 'column', 'exc_type', 'single_row', 'read_from')
 
 MAXF = np.finfo(np.float64).max
 MINNORM = np.finfo(np.float64).tiny
@@ -152,6 +176,21 @@ def header_facts(h):
     }
 
 
+def _ends_line(t, convention):
+    return t.endswith('\n') or (convention == 'universal' and t.endswith('\r'))
+
+
+def coord_states(da):
+    """Per coordinate: dims and alignment flag (what the coordinate-choice rule must not depend on)."""
+    out = {}
+    try:
+        for nm, c in da.coords.items():
+            out[str(nm)] = ('aligned' if c.aligned else 'unaligned') + ':' + ('scalar' if c.ndim == 0 else 'x'.join(c.dims))
+    except Exception:  # noqa: BLE001
+        pass
+    return out
+
+
 def hexes(a, limit=8):
     a = np.asarray(a, dtype=np.float64)
     return [float(v).hex() for v in a[:limit]]
@@ -183,7 +222,12 @@ class Monitors:
 
     # ---- target observation -------------------------------------------------
     def target_of(self, fname):
-        """(key, kind, reader convention, read() -> text or None if absent)."""
+        """(key, kind, reader convention, read() -> text or None if absent).
+
+        File objects are *streams*: what a call writes / reads lies between the position the object
+        had when the call began and the end of what the call produced / the end of the stream.
+        Positions are ``tell()`` values: characters of ``getvalue()`` for StringIO, byte offsets for
+        text handles of real files (the monitors read real files as bytes, one character per byte)."""
         lab = self.label.get('target')
         if isinstance(fname, io.StringIO):
             # StringIO(newline=None) translates CR / CRLF to LF when written to (universal newlines);
@@ -223,6 +267,39 @@ class Monitors:
             return raw.decode('latin-1')
         return ('path', p), kind, 'universal', read
 
+    @staticmethod
+    def is_stream(fname):
+        return not isinstance(fname, str | os.PathLike)
+
+    @staticmethod
+    def position(fname):
+        """Current position of a file object, or None when it cannot be observed as a plain offset."""
+        try:
+            if fname.closed or not fname.seekable():
+                return None
+            p = fname.tell()
+        except Exception:  # noqa: BLE001  e.g. tell() disabled by next(), detached buffer
+            return None
+        # text handles encode decoder state in the high bits of the cookie: not a plain offset then
+        return int(p) if isinstance(p, int) and 0 <= p < 2**62 else None
+
+    def observe_start(self, ev, writing):
+        """Position and content of the target when a watched call begins (kept in ev.pre)."""
+        try:
+            fname = ev.args['fname']
+            key, _, _, read = self.target_of(fname)
+            if key is None:
+                return None
+            stream = self.is_stream(fname)
+            pre = {'stream': stream, 'pos': self.position(fname) if stream else 0, 'text': read()}
+            if writing and stream and 'a' in str(getattr(fname, 'mode', '')) and pre['text'] is not None:
+                pre['pos'] = len(pre['text'])   # append mode: the operating system writes at the end
+                pre['append'] = True
+            return pre
+        except Exception:  # noqa: BLE001
+            self.ctx.oracle_error('C15 monitor (observation at call start)')
+            return None
+
     # ---- my reading of "data the format cannot represent" -----------------
     @staticmethod
     def model_coord(da, coord_arg):
@@ -259,6 +336,7 @@ class Monitors:
     def save_start(self, ev):
         self.gen_header = None
         self.deduced = None
+        return self.observe_start(ev, writing=True)
 
     def save_return(self, ev):
         ctx = self.ctx
@@ -276,24 +354,72 @@ class Monitors:
                 ctx.count('out_of_domain:unknown_target_type')
                 return
             text = read()
+            pre = ev.pre if isinstance(ev.pre, dict) else None
+            span = self.written_span(fname, pre, text)
         except Exception:  # noqa: BLE001
             ctx.oracle_error('C15 save monitor (observation)')
             return
         base = {'k': self.label.get('k'), 'target': tkind, 'header_arg': _hdr_repr(header_arg),
                 'coord_arg': coord_arg, 'coords': [str(n) for n in da.coords.keys()],
+                'coord_states': coord_states(da),
                 'dims': list(da.dims), 'shape': list(da.shape)}
+        if self.label.get('step') is not None:
+            base['step'] = self.label['step']
         if classes:
-            self.judge_refusal(ev, classes, tkind, text, base)
+            self.judge_refusal(ev, classes, tkind, text, base, pre)
             return
-        self.judge_file(ev, da, chosen, header_arg, key, tkind, conv, text, base)
+        if 'chosen_not_along_dim' in self.soft_classes(da, chosen):
+            # the rule selects a coordinate that has no value per row (a scalar left over from slicing or
+            # an attribute-like scalar): neither in the property's list of refusals nor writable as a
+            # column -> executed and counted, the file is not judged (the coord-choice monitor still is)
+            ctx.count('out_of_domain:chosen_coordinate_has_no_value_per_row')
+            self.drop_segments(key, None)
+            return
+        self.judge_file(ev, da, chosen, header_arg, key, tkind, conv, text, base, span)
 
-    def judge_refusal(self, ev, classes, tkind, text, base):
+    def written_span(self, fname, pre, text):
+        """[start, end) of the text this call put into the target, or None if it cannot be observed.
+
+        Paths are (re)written as a whole.  A file object is written from the position it had when the
+        call began to the position it has now."""
+        if not self.is_stream(fname):
+            return (0, len(text or ''), None)
+        if pre is None or pre.get('pos') is None:
+            return None
+        end = self.position(fname)
+        if end is None or end < pre['pos'] or end > len(text or ''):
+            return None
+        return (pre['pos'], end, pre.get('text'))
+
+    def drop_segments(self, key, span):
+        segs = self.ledger.get(key)
+        if not segs:
+            return
+        if span is None:
+            self.ledger.pop(key, None)
+            return
+        a, b = span[0], span[1]
+        self.ledger[key] = [g for g in segs if g['end'] <= a or g['start'] >= max(b, a + 1)]
+
+    @staticmethod
+    def soft_classes(da, chosen):
+        out = set()
+        if chosen is not None and chosen in da.coords and da.ndim == 1 and da.coords[chosen].dims != da.dims:
+            out.add('chosen_not_along_dim')
+        return out
+
+    def judge_refusal(self, ev, classes, tkind, text, base, pre):
         ctx = self.ctx
         cl = '+'.join(sorted(classes))
         case = dict(base, input_classes=sorted(classes))
         ctx.event('save_xye.refusal')
         for c in classes:
             ctx.hit('refuse:' + c)
+        try:
+            if 'masks' in classes and all(m.ndim == 0 for m in ev.args['da'].masks.values()):
+                ctx.hit('refuse:masks_all_row_independent')
+        except Exception:  # noqa: BLE001
+            pass
         if ev.exc is None:
             self.viol('not_refused', f'save_xye returned for input the format cannot represent ({cl})',
                       case, input_class=cl, target=tkind)
@@ -304,12 +430,22 @@ class Monitors:
         else:
             if len(classes) == 1 and type(ev.exc).__name__ != PINNED[cl]:
                 ctx.count(f'refusal_type_differs_from_pinned:{cl}:{type(ev.exc).__name__}')
-        if text:
+        # "refused rather than written": the target holds what it held when the call began (a fresh path
+        # is absent or empty; a stream that already carries tables still carries exactly those)
+        before = (pre or {}).get('text') or ''
+        if (text or '') != before:
+            now = text or ''
+            m = 0
+            while m < min(len(now), len(before)) and now[m] == before[m]:
+                m += 1
             self.viol('refused_but_wrote' if ev.exc is not None else 'lossy_file_written',
-                      f'{cl}: target holds {len(text)} characters after the call',
-                      dict(case, text_head=text[:200]), input_class=cl, target=tkind)
+                      f'{cl}: target holds {len(now)} characters after the call, {len(before)} before '
+                      f'(first difference at {m})',
+                      dict(case, text_head=now[m:m + 200]), input_class=cl, target=tkind)
+        elif before:
+            ctx.hit('refuse:into_stream_with_content')
 
-    def judge_file(self, ev, da, chosen, header_arg, key, tkind, conv, text, base):
+    def judge_file(self, ev, da, chosen, header_arg, key, tkind, conv, text, base, span):
         ctx = self.ctx
         try:
             x = np.array(da.coords[chosen].values, dtype=np.float64, copy=True)
@@ -327,29 +463,53 @@ class Monitors:
             case = dict(base, effective_header=eff_header[:300], n=n, **facts)
             if n <= 8:
                 case.update(x=hexes(x), y=hexes(y), var=hexes(var))
+            stream = self.is_stream(ev.args['fname'])
+            if span is not None:
+                case['written_span'] = [span[0], span[1]]
         except Exception:  # noqa: BLE001
             ctx.oracle_error('C15 file monitor (setup)')
             return
         if ev.exc is not None:
+            self.drop_segments(key, None)
             self.viol('save_raised', f'save_xye raised {type(ev.exc).__name__}: {str(ev.exc)[:160]} '
                       'for representable input', case, exc_type=type(ev.exc).__name__, **keys)
             return
+        if span is None:
+            ctx.count('out_of_domain:stream_position_not_observable')
+            self.drop_segments(key, None)
+            return
+        if stream:
+            self.drop_segments(key, span)
+        else:
+            self.drop_segments(key, None)
+        a, b, before = span
+        seg_text = None if text is None else text[a:b]
+        seg = {'start': a, 'end': b, 'text': seg_text, 'judged': False}
+        self.ledger.setdefault(key, []).append(seg)
+        self.ledger[key].sort(key=lambda g: g['start'])
         if not facts['header_ascii']:
             ctx.count('out_of_domain:non_ascii_header')
-            self.ledger[key] = {'judged': False}
             return
         if not (np.all(np.isfinite(x)) and np.all(np.isfinite(y)) and np.all(np.isfinite(var))
                 and np.all(var >= 0) and n >= 1):
             ctx.count('out_of_domain:non_finite_or_negative_variance_or_empty')
-            self.ledger[key] = {'judged': False}
             return
-        entry = {'judged': True, 'x': x, 'y': y, 'var': var, 'n': n, 'keys': keys, 'case': case,
-                 'file_header_escaped': False, 'keep': ev.args['fname'], 'chosen': chosen}
-        self.ledger[key] = entry
+        seg.update({'judged': True, 'x': x, 'y': y, 'var': var, 'n': n, 'keys': keys, 'case': case,
+                    'file_header_escaped': False, 'keep': ev.args['fname'], 'chosen': chosen})
+        entry = seg
         try:
             if text is None:
                 self.viol('file_missing', 'save_xye returned but the target does not exist', case, **keys)
                 return
+            if stream:
+                if a > 0:
+                    ctx.hit('stream:table_written_behind_other_content')
+                if before is not None and text[:a] != before[:a]:
+                    self.viol('stream_content_before_position_changed',
+                              f'the {a} characters in front of the position at which save_xye was called '
+                              'are not what they were', dict(case, now=text[:a][-200:], was=before[:a][-200:]), **keys)
+                    return
+            text = seg_text   # the monitor judges exactly what this call wrote
             rows, bad, n_comment, n_blank = parse_table(text, conv)
             exp_e = np.sqrt(var.astype(np.longdouble)).astype(np.float64)
             if n_blank:
@@ -412,32 +572,116 @@ class Monitors:
         return None, None, d
 
     # ---- load_xye -------------------------------------------------------------
+    def load_start(self, ev):
+        return self.observe_start(ev, writing=False)
+
+    def expected_of_read(self, segs, text, pos, conv):
+        """What a reader that starts at ``pos`` and reads to the end of ``text`` is to return, from the
+        tables the monitored saves put there: (list of (segment, rows already consumed), reason or None).
+
+        The stream is cut into pieces: the spans written by monitored saves and the text between them
+        (written by the caller).  The caller's text may only contribute comment / blank lines, every piece
+        but the last ends with a line terminator, and a position inside a table is the start of a line;
+        otherwise the expectation is not defined by the property and the read is not judged."""
+        parts = []
+        cur = pos
+        pieces = []
+        for g in segs:
+            if g['end'] <= pos:
+                continue
+            if g['start'] > cur:
+                pieces.append((None, text[cur:g['start']]))
+            if g['start'] >= pos:
+                pieces.append((g, text[g['start']:g['end']]))
+                parts.append((g, 0))
+            else:
+                consumed = text[g['start']:pos]
+                if not _ends_line(consumed, conv):
+                    return None, 'read_position_inside_a_line'
+                if conv == 'universal' and consumed.endswith('\r') and text[pos:pos + 1] == '\n':
+                    return None, 'read_position_inside_a_line'
+                r0, _, _, _ = parse_table(consumed, conv)
+                pieces.append((g, text[pos:g['end']]))
+                parts.append((g, len(r0)))
+            cur = max(cur, g['end'])
+        if cur < len(text):
+            pieces.append((None, text[cur:]))
+        for j, (g, t) in enumerate(pieces):
+            if j < len(pieces) - 1 and t and not _ends_line(t, conv):
+                return None, 'pieces_of_the_stream_not_line_aligned'
+            if g is None:
+                r, b, _, _ = parse_table(t, conv)
+                if r or b:
+                    return None, 'caller_text_in_read_range_is_not_comment_or_blank'
+        return parts, None
+
     def load_return(self, ev):
         ctx = self.ctx
         if ev.depth != 0:
             return
         try:
             fname = ev.args['fname']
-            key, tkind, _, _ = self.target_of(fname)
-            entry = self.ledger.get(key)
+            key, tkind, conv, read = self.target_of(fname)
+            segs = self.ledger.get(key)
         except Exception:  # noqa: BLE001
             ctx.oracle_error('C15 round-trip monitor (lookup)')
             return
-        if entry is None:
+        if not segs:
             ctx.count('load_of_target_not_written_under_observation')
             return
-        if not entry['judged']:
-            ctx.count('out_of_domain:load_of_unjudged_file')
-            return
         try:
-            keys = dict(entry['keys'], file_header_escaped=entry['file_header_escaped'])
-            n, x, y, var = entry['n'], entry['x'], entry['y'], entry['var']
+            stream = self.is_stream(fname)
+            pre = ev.pre if isinstance(ev.pre, dict) else {}
+            pos = pre.get('pos') if stream else 0
+            text = pre.get('text')     # what the target held when the call began
+            if text is None:
+                ctx.count('out_of_domain:load_of_absent_target')
+                return
+            if pos is None or pos > len(text):
+                ctx.count('out_of_domain:stream_position_not_observable')
+                return
+            live = [g for g in segs if g['text'] is not None and text[g['start']:g['end']] == g['text']]
+            if len(live) != len(segs):
+                ctx.count('info:table_overwritten_after_it_was_saved', len(segs) - len(live))
+            parts, why = self.expected_of_read(live, text, pos, conv)
+            if parts is None:
+                ctx.count('out_of_domain:' + why)
+                return
+            if not parts:
+                ctx.count('out_of_domain:no_saved_table_in_read_range')
+                return
+            if not all(g['judged'] for g, _ in parts):
+                ctx.count('out_of_domain:load_of_unjudged_file')
+                return
+            x = np.concatenate([g['x'][r:] for g, r in parts])
+            y = np.concatenate([g['y'][r:] for g, r in parts])
+            var = np.concatenate([g['var'][r:] for g, r in parts])
+            n = len(y)
+            if n == 0:
+                ctx.count('out_of_domain:zero_rows_left_in_read_range')
+                return
+            first = parts[0][0]
+            start_class = ('stream_start' if pos == 0 else 'table_start' if parts[0][1] == 0 and pos == first['start']
+                           else 'inside_header' if parts[0][1] == 0 else 'inside_table')
+            if not stream:
+                start_class = 'path'
+            keys = dict(first['keys'], file_header_escaped=any(g['file_header_escaped'] for g, _ in parts),
+                        header_has_bare_cr=any(g['keys']['header_has_bare_cr'] for g, _ in parts),
+                        read_from=start_class, tables_in_range='1' if len(parts) == 1 else '>1')
             dim, unit, cunit = ev.args['dim'], ev.args['unit'], ev.args['coord_unit']
             cname = ev.args.get('coord')
             cname = dim if cname is None else cname
-            case = dict(entry['case'], load_args={'dim': dim, 'unit': str(unit), 'coord_unit': str(cunit),
-                                                  'coord': ev.args.get('coord')}, read_through=tkind)
+            case = dict(first['case'], load_args={'dim': dim, 'unit': str(unit), 'coord_unit': str(cunit),
+                                                  'coord': ev.args.get('coord')}, read_through=tkind,
+                        read_position=pos, stream_length=len(text),
+                        tables_in_range=[[g['start'], g['end'], g['n'], r] for g, r in parts], n=n)
+            if self.label.get('step') is not None:
+                case['step'] = self.label['step']
             ctx.event('load_xye.roundtrip')
+            if stream:
+                ctx.hit('read_from:' + start_class)
+                if len(parts) > 1:
+                    ctx.hit('read:several_tables_to_end_of_stream')
             if ev.exc is not None:
                 self.viol('roundtrip_load_raised',
                           f'load_xye raised {type(ev.exc).__name__}: {str(ev.exc)[:160]} on a file save_xye wrote',
@@ -463,7 +707,8 @@ class Monitors:
             if got_n != n:
                 tail_ok = (got_n > n and lx.dtype == np.float64 and lx[-n:].tobytes() == x.tobytes()
                            and ly[-n:].tobytes() == y.tobytes())
-                self.viol('roundtrip_row_count', f'{n} rows written, {got_n} rows loaded', dict(case, loaded_rows=got_n),
+                self.viol('roundtrip_row_count', f'{n} rows written between the read position and the end of the '
+                          f'target, {got_n} rows loaded', dict(case, loaded_rows=got_n),
                           single_row=n == 1, more_rows_loaded=got_n > n, table_tail_intact=bool(tail_ok), **keys)
                 return
             if lx.dtype != np.float64 or ly.dtype != np.float64 or lv is None:
@@ -530,7 +775,25 @@ class Monitors:
             ctx.oracle_error('C15 coord-choice monitor')
             return
         ctx.event('_deduce_coord')
-        case = {'k': self.label.get('k'), 'coords': names, 'dim': da.dim}
+        case = {'k': self.label.get('k'), 'coords': names, 'dim': da.dim, 'coord_states': coord_states(da)}
+        if self.label.get('step') is not None:
+            case['step'] = self.label['step']
+        try:
+            # the documented rule speaks of the coordinates of ``da``: every state a coordinate can be in
+            # counts alike; credit the states in which the rule was decided
+            flags = [bool(c.aligned) for c in da.coords.values()]
+            if len(names) > 1:
+                if not all(flags):
+                    ctx.hit('coords:some_unaligned' if any(flags) else 'coords:all_unaligned')
+                if any(c.ndim == 0 for c in da.coords.values()):
+                    ctx.hit('coords:scalar_among_several')
+                if da.dim in names and not da.coords[da.dim].aligned:
+                    ctx.hit('coords:dimension_coordinate_unaligned')
+                ctx.hit('coords:dimension_coordinate_' + ('present' if da.dim in names else 'absent'))
+            elif not flags[0]:
+                ctx.hit('coords:single_unaligned')
+        except Exception:  # noqa: BLE001
+            ctx.oracle_error('C15 coord-choice monitor (states)')
         if want is None:
             if ev.exc is None:
                 self.viol('ambiguous_coord_chosen', f'_deduce_coord returned {ev.result!r} for coordinates '
@@ -670,12 +933,27 @@ def schedule():
     for i, c in enumerate(REFUSE_CLASSES):
         for t in REFUSE_TARGETS:
             out.append({'kind': 'refuse', 'cls': c, 'target': t})
+    for rep in range(2):
+        for t in REFUSE_TARGETS:
+            out.append({'kind': 'refuse', 'cls': 'ambiguous_coord', 'target': t})
+    for rep in range(3):
+        for t in STREAM_TARGETS:
+            out.append({'kind': 'stream', 'target': t})
+    for lay in LAYOUTS[1:]:
+        for t in ('stringio', 'path_str'):
+            out.append({'kind': 'accept', 'header': 'default', 'target': t, 'rows': None, 'layout': lay})
     return out
 
 
-def random_spec(rng):
-    if rng.random() < 0.24:
-        return {'kind': 'refuse', 'cls': REFUSE_CLASSES[int(rng.integers(0, len(REFUSE_CLASSES)))],
+def random_spec(rng, only=None):
+    r = rng.random()
+    if only is None and r < 0.2:
+        return {'kind': 'stream', 'target': STREAM_TARGETS[int(rng.integers(0, len(STREAM_TARGETS)))]}
+    if only is None and r < 0.4:
+        # the coordinate classes have the largest state space (alignment, scalars, slicing routes)
+        wr = np.array([4.0 if c == 'ambiguous_coord' else 2.0 if c in ('combo', 'bin_edges_deduced', 'masks') else 1.0
+                       for c in REFUSE_CLASSES])
+        return {'kind': 'refuse', 'cls': REFUSE_CLASSES[int(rng.choice(len(REFUSE_CLASSES), p=wr / wr.sum()))],
                 'target': REFUSE_TARGETS[int(rng.integers(0, len(REFUSE_TARGETS)))]}
     w = np.array([5, 2, 1, 1, 2, 1, 2, 2, 1.5, 0.3, 1.5, 3, 1.5])
     h = HEADER_CLASSES[int(rng.choice(len(HEADER_CLASSES), p=w / w.sum()))]
@@ -715,6 +993,75 @@ class Env:
         raise KeyError(kind)
 
 
+LAYOUTS = ['dict', 'flags', 'slice2d', 'slice2d_transposed', 'range_squeeze']
+LEFTOVER_NAMES = ['spectrum', 'detector_number', 'temperature', 'run', 'sample_position']
+
+
+def vary_alignment(rng, da, p):
+    """Clear the alignment flag of each coordinate with probability p (scipp: coords.set_aligned)."""
+    for nm in list(da.coords.keys()):
+        if rng.random() < p:
+            da.coords.set_aligned(nm, False)
+    return da
+
+
+def assemble(rng, dim, y, var, unit, coords, layout, n_extra):
+    """A 1-d data array with the given values and 1-d coordinates, reached the way users reach one.
+
+    dict: from variables (every coordinate aligned); flags: alignment cleared at random;
+    slice2d / slice2d_transposed: integer index into a 2-d array (outer dim first / last) whose 1-d and
+    2-d coordinates become the 1-d coordinates, the outer dimension-coordinate and other outer
+    coordinates stay behind as unaligned scalars; range_squeeze: length-1 range, then squeeze.
+    ``n_extra`` further coordinates that do not depend on the row (scalars) are added: leftovers of the
+    slicing where there is slicing, plain scalar coordinates otherwise."""
+    taken = set(coords) | {dim}
+    extra_names = [nm for nm in LEFTOVER_NAMES if nm not in taken][:n_extra]
+    if layout in ('dict', 'flags'):
+        da = sc.DataArray(sc.array(dims=[dim], values=y, variances=var, unit=unit), coords=dict(coords))
+        for nm in extra_names:
+            da.coords[nm] = sc.scalar(float(finite_bits(rng, 1)[0]), unit='K')
+            if rng.random() < 0.5:
+                da.coords.set_aligned(nm, False)
+        if layout == 'flags':
+            vary_alignment(rng, da, 0.5)
+        return da
+    n = len(y)
+    outer = 'outer' if 'outer' not in taken else 'outer_'
+    m = int(rng.integers(1, 4)) if n <= 3000 else 2
+    i = int(rng.integers(0, m))
+    dims2 = [outer, dim] if layout != 'slice2d_transposed' else [dim, outer]
+
+    def two_d(row):
+        a = finite_bits(rng, m * n).reshape(m, n)
+        a[i] = row
+        return a if dims2[0] == outer else np.ascontiguousarray(a.T)
+
+    data = sc.array(dims=dims2, values=two_d(y), variances=np.abs(two_d(var)), unit=unit)
+    cs = {}
+    for nm, c in coords.items():
+        if rng.random() < 0.35:
+            cs[nm] = sc.array(dims=dims2, values=two_d(c.values), unit=c.unit)
+        else:
+            cs[nm] = c
+    for j, nm in enumerate(extra_names):
+        if j == 0 or rng.random() < 0.6:
+            cs[nm] = sc.array(dims=[outer], values=finite_bits(rng, m), unit=None)   # -> unaligned scalar
+        else:
+            cs[nm] = sc.scalar(float(finite_bits(rng, 1)[0]), unit='K')             # stays an aligned scalar
+    da2 = sc.DataArray(data, coords=cs)
+    if layout == 'range_squeeze':
+        da = da2[outer, i:i + 1].squeeze(outer)
+    else:
+        da = da2[outer, i]
+    # a slice is a read-only view of the 2-d array; users work on it as it is or on a (shallow) copy
+    r = rng.random()
+    if r < 0.5:
+        da = da.copy(deep=bool(r < 0.25))
+        if rng.random() < 0.5:
+            vary_alignment(rng, da, 0.4)
+    return da
+
+
 def build_accept(rng, spec, tier, k):
     n = spec.get('rows') or draw_rows(rng, tier, k)
     vcls = ['mixed', 'bits', 'special', 'ordinary'][int(rng.choice(4, p=[0.45, 0.25, 0.15, 0.15]))]
@@ -749,7 +1096,14 @@ def build_accept(rng, spec, tier, k):
         if nm == chosen and rng.random() < 0.3:
             v = np.sort(v)
         coords[nm] = sc.array(dims=[dim], values=v, unit=cunit if nm == chosen else 'm')
-    da = sc.DataArray(sc.array(dims=[dim], values=y, variances=var, unit=unit), coords=coords)
+    # the coordinates in every state scipp allows; what is selected must not depend on the state.
+    # Row-independent extras keep the case an accept case only if the rule still selects ``chosen``:
+    # coord= given, or the chosen one is the dimension-coordinate.
+    layout = spec.get('layout') or LAYOUTS[int(rng.choice(len(LAYOUTS), p=[0.3, 0.2, 0.2, 0.15, 0.15]))]
+    n_extra = 0
+    if (explicit or dim == chosen) and ncoords < 5 and rng.random() < 0.6:
+        n_extra = int(rng.integers(1, 6 - ncoords))
+    da = assemble(rng, dim, y, var, unit, coords, layout, n_extra)
     kw = {}
     if explicit:
         kw['coord'] = chosen
@@ -757,8 +1111,9 @@ def build_accept(rng, spec, tier, k):
     if hdr is not None:
         kw['header'] = hdr
     band = '1' if n == 1 else '2-3' if n < 4 else '4-300' if n <= 300 else '301-3000' if n < 10000 else '1e4'
-    sig = ('accept', spec['target'], h, ncoords, explicit, band, vcls)
-    trivial = h == 'default' and vcls == 'ordinary' and ncoords == 1 and not hostile
+    sig = ('accept', spec['target'], h, len(da.coords), explicit, band, vcls, layout)
+    trivial = (h == 'default' and vcls == 'ordinary' and len(da.coords) == 1 and not hostile
+               and layout == 'dict')
     return da, kw, dim, chosen, unit, cunit, sig, trivial
 
 
@@ -776,6 +1131,7 @@ def build_refuse(rng, cls):
                 or set(parts) == {'ambiguous_coord', 'bin_edges'}:
             parts = ['masks', parts[0]]
     dim = 'x'
+    amb_leftovers = 0
     if 'ndim0' in parts:
         da = sc.DataArray(sc.scalar(float(y[0]), variance=float(var[0]), unit='counts'),
                           coords={'x': sc.scalar(float(x[0]), unit='m')})
@@ -799,12 +1155,27 @@ def build_refuse(rng, cls):
     coords = {}
     if 'no_coord' not in parts:
         if 'ambiguous_coord' in parts:
-            m = int(rng.integers(2, 6))
-            for nm in [BENIGN_NAMES[i] for i in rng.permutation(len(BENIGN_NAMES))[:m]]:
-                if nm != dim:
-                    coords[nm] = sc.array(dims=[dim], values=draw_values(rng, n, 'bits'), unit='m')
-            while len(coords) < 2:
-                coords['c%d' % len(coords)] = sc.array(dims=[dim], values=draw_values(rng, n, 'bits'), unit='m')
+            # several coordinates, none named like the dimension -- in any state: all along the rows, or one
+            # along the rows plus row-independent ones (scalars); the alignment flags are varied below and
+            # the integer-slice route leaves the outer coordinates behind as unaligned scalars
+            n1 = int(rng.integers(1, 5))                        # coordinates with a value per row
+            n0 = int(rng.integers(0, 4)) if n1 > 1 else int(rng.integers(1, 4))   # row-independent ones
+            if rng.random() < 0.4 and n1 > 1:
+                n0 = 0
+            via_slicing = n0 > 0 and rng.random() < 0.6
+            nms = [nm for nm in (BENIGN_NAMES[i] for i in rng.permutation(len(BENIGN_NAMES))) if nm != dim]
+            for nm in nms[:n1]:
+                coords[nm] = sc.array(dims=[dim], values=draw_values(rng, n, 'bits'), unit='m')
+            if not via_slicing:
+                for nm in nms[n1:n1 + n0]:
+                    coords[nm] = sc.scalar(float(finite_bits(rng, 1)[0]), unit='m')
+                if n0 and rng.random() < 0.15:
+                    # a row-independent coordinate that carries the name of the dimension: no longer ambiguous
+                    # by the documented rule (it selects this name); nothing to write per row -> the monitors
+                    # judge the choice and count the save as outside the property
+                    coords[dim] = coords.pop(nms[n1])
+                n0 = 0
+            amb_leftovers = n0
         elif 'bin_edges' in parts or 'bin_edges_deduced' in parts:
             edges = sc.array(dims=[dim], values=np.sort(draw_values(rng, n + 1, 'ordinary')), unit='m')
             if 'bin_edges_deduced' in parts:
@@ -824,12 +1195,30 @@ def build_refuse(rng, cls):
                 coords['other'] = sc.array(dims=[dim], values=draw_values(rng, n, 'bits'), unit='m')
             if rng.random() < 0.5:
                 kw['coord'] = dim
-    da = sc.DataArray(data, coords=coords)
+    route = int(rng.integers(0, 4))
+    sliceable = 'no_coord' not in parts and all(c.ndim == 1 and c.dims == (dim,) and c.shape[0] == n
+                                                for c in coords.values())
+    if 'ambiguous_coord' in parts and amb_leftovers:
+        route = 0
+    if route == 0 and sliceable:
+        # the same array as row i of 2-d data; outer coordinates stay behind as unaligned scalars
+        lay = ['slice2d', 'slice2d_transposed', 'range_squeeze'][int(rng.integers(0, 3))]
+        da = assemble(rng, dim, y, var, 'counts', coords, lay, amb_leftovers).copy(deep=False)
+        if 'no_variances' in parts:
+            da = sc.DataArray(sc.values(da.data), coords={k: da.coords[k] for k in da.coords})
+    else:
+        da = sc.DataArray(data, coords=coords)
+        if route == 1:
+            vary_alignment(rng, da, 0.5)
+        elif route == 2:
+            vary_alignment(rng, da, 1.0)
     if 'masks' in parts:
+        # mask states: per row, row-independent (scalar), or both kinds side by side
+        p_scalar = [0.0, 1.0, 0.5][int(rng.choice(3, p=[0.4, 0.35, 0.25]))]
         for j in range(int(rng.integers(1, 3))):
             m = rng.random(n) < 0.4
             m[int(rng.integers(0, n))] = True
-            if da.ndim == 1 and rng.random() < 0.3:
+            if da.ndim == 1 and rng.random() < p_scalar:
                 # a mask without the data dimension (a whole-spectrum flag, e.g. left over from slicing)
                 da.masks['m%d' % j] = sc.scalar(bool(rng.random() < 0.7))
             else:
@@ -837,6 +1226,166 @@ def build_refuse(rng, cls):
     if rng.random() < 0.5:
         kw['header'] = ['', 'refused?', '1 2 3\n4 5 6'][int(rng.integers(0, 3))]
     return da, kw, parts
+
+
+# ---- file objects used as streams -------------------------------------------
+STREAM_TARGETS = ['stringio', 'stringio_universal', 'handle_w+', 'handle_w+_crlf', 'handle_a+', 'handle_w_then_r']
+CALLER_TEXT = ['title', 'comment', 'comment_open_end', 'rowlike', 'blank']
+TITLES = ['LaB6 calibration, run 4711, bank 2', 'XYE export', 'sample: Si  T=293K', 'bank 3 / 1 2 3', 'run 17']
+
+
+def caller_text(rng, cls):
+    """Text the caller writes into the stream himself, around the tables."""
+    t = TITLES[int(rng.integers(0, len(TITLES)))]
+    if cls == 'title':          # free text: must be consumed (or seeked over) before a table is read
+        return ''.join(TITLES[int(rng.integers(0, len(TITLES)))] + '\n' for _ in range(int(rng.integers(1, 3))))
+    if cls == 'comment':
+        return ''.join('#' + [' ', '', '# '][int(rng.integers(0, 3))] + t + '\n' for _ in range(int(rng.integers(1, 3))))
+    if cls == 'comment_open_end':   # no line end: the next thing written continues this comment line
+        return '# ' + t
+    if cls == 'rowlike':        # numbers that are not part of any table the reader is asked for
+        return ''.join(ROW_LIKE[int(rng.integers(0, len(ROW_LIKE)))] + '\n' for _ in range(int(rng.integers(1, 3))))
+    return '\n' * int(rng.integers(1, 3))
+
+
+class Stream:
+    """One file object (StringIO or a real text handle) that receives several things in a row."""
+
+    def __init__(self, env, kind):
+        self.kind = kind
+        self.path = None
+        self.reader = None
+        if kind == 'stringio':
+            self.w = io.StringIO()
+        elif kind == 'stringio_universal':
+            self.w = io.StringIO(newline=None)
+        else:
+            self.path = env.fresh_path()
+            if kind == 'handle_a+':
+                with open(self.path, 'w') as f:
+                    f.write('')
+            mode = {'handle_w+': 'w+', 'handle_w+_crlf': 'w+', 'handle_a+': 'a+', 'handle_w_then_r': 'w'}[kind]
+            self.w = open(self.path, mode, newline='\r\n' if kind == 'handle_w+_crlf' else None)
+
+    def end(self):
+        self.w.seek(0, 2)
+        return self.w.tell()
+
+    def read_handle(self):
+        """The object a reader uses: the stream itself, or a handle opened on the same file."""
+        if self.kind != 'handle_w_then_r':
+            return self.w
+        self.w.flush()
+        if self.reader is not None:
+            self.reader.close()
+        self.reader = open(self.path)
+        return self.reader
+
+    def close(self):
+        for f in (self.reader, self.w):
+            try:
+                if f is not None:
+                    f.close()
+            except Exception:  # noqa: BLE001
+                pass
+        if self.path and os.path.exists(self.path):
+            os.remove(self.path)
+
+
+def read_back(rng, env, st, items, j, how):
+    """Position a reader at table j the way ``how`` says and hand the file object to load_xye."""
+    it = items[j]
+    r = st.read_handle()
+    if how == 'seek':
+        r.seek(it['offset'])
+    else:
+        # get there by reading: start at an earlier item and consume lines up to the table
+        i0 = int(rng.integers(0, j + 1))
+        r.seek(items[i0]['offset'])
+        guard = 0
+        while r.tell() < it['offset'] and guard < 100000:
+            guard += 1
+            if r.readline() == '':
+                break
+        if how == 'consume_more':
+            # the caller reads on: the header line(s), to learn names and units, or the first rows
+            for _ in range(int(rng.integers(1, 4))):
+                r.readline()
+    try:
+        env.load(r, **it['lkw'])
+    except Exception:  # noqa: BLE001  judged by the round-trip monitor
+        pass
+
+
+def run_stream(shard, k, env, rng, spec):
+    ctx, mon = env.ctx, env.mon
+    kind = spec['target']
+    st = Stream(env, kind)
+    items = []
+    n_items = int(rng.integers(2, 6))
+    n_tables = 0
+    try:
+        for step in range(n_items):
+            mon.label = {'target': kind, 'k': k, 'step': step}
+            off = st.end()
+            r = rng.random()
+            if r < 0.3 and not (step == n_items - 1 and n_tables == 0):
+                cls = CALLER_TEXT[int(rng.choice(len(CALLER_TEXT), p=[0.3, 0.3, 0.1, 0.15, 0.15]))]
+                st.w.write(caller_text(rng, cls))
+                items.append({'what': cls, 'offset': off})
+                continue
+            if r < 0.42 and items:
+                da, kw, parts = build_refuse(rng, REFUSE_CLASSES[int(rng.integers(0, len(REFUSE_CLASSES)))])
+                try:
+                    env.save(st.w, da, **kw)
+                except Exception:  # noqa: BLE001  judged by the refusal monitor
+                    pass
+                items.append({'what': 'refused', 'offset': off})
+                continue
+            sub = random_spec(rng, only='accept')
+            sub['rows'] = sub.get('rows') or min(draw_rows(rng, env.tier, k), 400)
+            da, kw, dim, chosen, unit, cunit, sig, trivial = build_accept(rng, sub, env.tier, k)
+            lkw = {'dim': dim, 'unit': unit, 'coord_unit': cunit}
+            if rng.random() < 0.5 or chosen != dim:
+                lkw['coord'] = chosen
+            try:
+                env.save(st.w, da, **kw)
+            except Exception:  # noqa: BLE001  judged by the save monitor
+                items.append({'what': 'failed', 'offset': off})
+                continue
+            n_tables += 1
+            items.append({'what': 'table', 'offset': off, 'lkw': lkw, 'header': sub['header']})
+            ctx.hit('header:' + sub['header'])
+            if rng.random() < 0.6:
+                # read it back right away, from where it starts, then go on appending
+                how = ['seek', 'readline', 'consume_more'][int(rng.choice(3, p=[0.5, 0.3, 0.2]))]
+                read_back(rng, env, st, items, len(items) - 1, how)
+            ctx.case(('stream', kind, sub['header'], 'first' if off == 0 else 'behind_content', sig[3], sig[4], sig[7]))
+        mon.label = {'target': kind, 'k': k, 'step': 'final'}
+        tables = [j for j, it in enumerate(items) if it['what'] == 'table']
+        for j in tables:
+            if rng.random() < 0.7:
+                how = ['seek', 'readline', 'consume_more'][int(rng.choice(3, p=[0.5, 0.3, 0.2]))]
+                read_back(rng, env, st, items, j, how)
+        if tables and rng.random() < 0.5:
+            r = st.read_handle()
+            r.seek(0)
+            try:
+                env.load(r, **items[tables[0]]['lkw'])
+            except Exception:  # noqa: BLE001
+                pass
+        if st.path and tables and rng.random() < 0.4:
+            st.w.flush()
+            try:
+                env.load(st.path if rng.random() < 0.5 else pathlib.Path(st.path), **items[tables[-1]]['lkw'])
+            except Exception:  # noqa: BLE001
+                pass
+        ctx.hit('target:stream_' + kind)
+    finally:
+        mon.ledger.clear()
+        st.close()
+    if k < 2:
+        ctx.sample({'k': k, 'stream': kind, 'items': [{a: b for a, b in it.items() if a != 'lkw'} for it in items]})
 
 
 def run_one(shard, k, env):
@@ -847,6 +1396,9 @@ def run_one(shard, k, env):
     spec = sched[k] if k < len(sched) else random_spec(rng)
     mon.label = {'target': spec['target'], 'k': k}
     before = ctx.n_violations
+    if spec['kind'] == 'stream':
+        run_stream(shard, k, env, rng, spec)
+        return
     if spec['kind'] == 'refuse':
         da, kw, parts = build_refuse(rng, spec['cls'])
         tgt, path, closer = env.open_target(spec['target'])
@@ -911,7 +1463,7 @@ def arm(ctx):
     mon = Monitors(ctx)
     tr = Tracer()
     tr.watch(X.save_xye, 'save_xye', on_start=mon.save_start, on_return=mon.save_return)
-    tr.watch(X.load_xye, 'load_xye', on_return=mon.load_return)
+    tr.watch(X.load_xye, 'load_xye', on_start=mon.load_start, on_return=mon.load_return)
     tr.watch(X._deduce_coord, '_deduce_coord', on_return=mon.deduce_return)
     tr.watch(X._generate_xye_header, '_generate_xye_header', on_return=mon.header_return)
     return X, mon, tr
@@ -935,7 +1487,15 @@ def requirements(tier):
     forced = (['header:' + h for h in HEADER_CLASSES] + ['target:' + t for t in TARGETS]
               + ['refuse:' + c for c in PINNED]
               + ['value:-0.0', 'value:denormal', 'value:max', 'value:min_normal', 'value:1+-ulp',
-                 'rows:1', 'rows:>=1e4'])
+                 'rows:1', 'rows:>=1e4']
+              + ['target:stream_' + t for t in STREAM_TARGETS]
+              + ['coords:some_unaligned', 'coords:all_unaligned', 'coords:single_unaligned',
+                 'coords:scalar_among_several', 'coords:dimension_coordinate_unaligned',
+                 'coords:dimension_coordinate_present', 'coords:dimension_coordinate_absent',
+                 'stream:table_written_behind_other_content', 'refuse:into_stream_with_content',
+                 'refuse:masks_all_row_independent',
+                 'read_from:stream_start', 'read_from:table_start', 'read_from:inside_header',
+                 'read_from:inside_table', 'read:several_tables_to_end_of_stream'])
     return {'events': {'save_xye.file': 250 if q else 10000, 'load_xye.roundtrip': 250 if q else 10000,
                        'save_xye.refusal': 80 if q else 3000, '_deduce_coord': 60 if q else 2000,
                        '_generate_xye_header': 60 if q else 2000},
